@@ -1,7 +1,7 @@
 (* Properties/C16.v — Log blooms have no false negatives and log queries are exact.
    Only statements closed by `exact`, with Print Assumptions under each.
    H is the hash (crypto.Keccak256 in the code): every theorem holds for every H. *)
-From AQ Require Import Lib.Bytes Lib.Keccak Generated.GenParamsBloom Bloom.BloomModel Bloom.FilterModel Bloom.BloomProofs Bloom.FilterProofs Bloom.ByteModel Bloom.ByteProofs.
+From AQ Require Import Lib.Bytes Lib.Keccak Generated.GenParamsBloom Bloom.BloomModel Bloom.FilterModel Bloom.BloomProofs Bloom.FilterProofs Bloom.ByteModel Bloom.ByteProofs Bloom.IndexerModel Bloom.IndexerProofs.
 Local Open Scope N_scope.
 
 (* every address and every topic of every log of the receipts tests positive in
@@ -211,6 +211,82 @@ Theorem C16_logs_exact_toblock_pending_refuted :
     brute_force [] [] c 0 (-1) <> [].
 Proof. exact toblock_pending_refuted. Qed.
 Print Assumptions C16_logs_exact_toblock_pending_refuted.
+
+(* The ChainIndexer as a state machine (IndexerModel.v): over EVERY history of canonical-chain switches
+   (each keeping the blocks below the common ancestor), notification deliveries (newHead(anc, true),
+   newHead(n, false)) and two-phase section steps (capture section/oldHead; later process against the chain as
+   it is then), for every backend whose successful commit writes the transposition of what it was fed:
+   once every notification has been delivered, each stored section s has its head recorded as the CURRENT
+   canonical hash of block (s+1)*size-1 and the rows stored under (s, that hash) are the transposition of the
+   blooms of the current canonical headers s*size..(s+1)*size-1. *)
+Theorem C16_indexer_safe :
+  forall (commit : N -> list N -> gres (list N)) (size confirms : N), 0 < size ->
+  (forall blooms rows, commit size blooms = GOk rows -> lenN blooms = size ->
+     length rows = bloom_bit_length /\
+     forall i k, (i < bloom_bit_length)%nat -> k < size ->
+       N.testbit (nth i rows 0) k = N.testbit (nth (N.to_nat k) blooms 0) (N.of_nat i)) ->
+  forall (c0 : hchain) (ops : list op),
+  ops_valid commit size confirms (mkW c0 [] ix_init) ops ->
+  let w := run_ops commit size confirms (mkW c0 [] ix_init) ops in
+  w_queue w = [] ->
+  forall s, s < ix_stored (w_ix w) ->
+    (s + 1) * size <= lenN (w_chain w) /\
+    shead (w_ix w) s = canon_hash (w_chain w) ((s + 1) * size - 1) /\
+    exists rows, db_find (ix_db (w_ix w)) s (shead (w_ix w) s) = Some rows /\
+      length rows = bloom_bit_length /\
+      forall i k, (i < bloom_bit_length)%nat -> k < size ->
+        N.testbit (nth i rows 0) k
+        = N.testbit (nth (N.to_nat k) (map hb_bloom (firstn (N.to_nat size) (skipn (N.to_nat (s * size)) (w_chain w)))) 0) (N.of_nat i).
+Proof. exact indexer_safe. Qed.
+Print Assumptions C16_indexer_safe.
+
+(* both backends meet the commit premise: the production BloomIndexer (Bitset bound included) and the
+   harness backend used for section sizes below 2048 *)
+Theorem C16_commit_premise :
+  forall (size : N) (blooms rows : list N), lenN blooms = size ->
+  (process_section size blooms = GOk rows \/ process_section_rows size blooms = GOk rows) ->
+  length rows = bloom_bit_length /\
+  forall i k, (i < bloom_bit_length)%nat -> k < size ->
+    N.testbit (nth i rows 0) k = N.testbit (nth (N.to_nat k) blooms 0) (N.of_nat i).
+Proof.
+  exact (fun size blooms rows Hl H => match H with
+    | or_introl Hp => process_section_spec size blooms rows Hp Hl
+    | or_intror Hp => process_section_rows_spec size blooms rows Hp Hl end).
+Qed.
+Print Assumptions C16_commit_premise.
+
+(* composed: after any such history, with every notification delivered, a query answered through the index
+   the ChainIndexer built (rows fetched by (bit, section, current canonical head hash), progress =
+   storedSections) is the brute-force scan of the canonical receipts.  Premises besides the history: header
+   blooms are 2048-bit values and the bloom layer is sound (C16_bloom_filter_sound gives that from
+   header bloom = CreateBloom(receipts)). *)
+Theorem C16_indexed_logs_exact :
+  forall (H : bytes -> bytes) (addrs : list bytes) (tops : list (list bytes))
+         (commit : N -> list N -> gres (list N)) (size confirms : N) (c0 : hchain) (ops : list op) (begin end_ : Z),
+  0 < size ->
+  (forall blooms rows, commit size blooms = GOk rows -> lenN blooms = size -> rows_transposed size rows blooms) ->
+  let w0 := mkW c0 [] ix_init in
+  ops_valid commit size confirms w0 ops ->
+  let w := run_ops commit size confirms w0 ops in
+  let c := map hb_block (w_chain w) in
+  w_queue w = [] ->
+  c <> [] -> (Z.of_N (lenN c) < two63)%Z -> (-1 <= begin < two63)%Z -> (-1 <= end_ < two63)%Z ->
+  (forall blk, In blk c -> b_bloom blk < 2 ^ 2048) ->
+  (forall blk, In blk c -> bloom_filter H (b_bloom blk) addrs tops = false -> filter_logs (concat (b_receipts blk)) addrs tops = []) ->
+  filter_query H addrs tops c (index_of_world size w) size (ix_stored (w_ix w)) begin end_
+  = brute_force addrs tops c begin end_.
+Proof. exact indexed_logs_exact. Qed.
+Print Assumptions C16_indexed_logs_exact.
+
+(* non-vacuity of the history theorems: 10 blocks indexed (section size 8), a reorg at block 4 replacing
+   half of the indexed section, re-indexed; the history is valid, ends with no notification in flight, one
+   stored section whose head is the new branch's block 7, and row 1 is the new branch's bit 1 *)
+Example C16_indexer_example :
+  ops_valid process_section_rows 8 0 (mkW (firstn 1 ex_hA) [] ix_init) ex_ops /\
+  (let w := run_ops process_section_rows 8 0 (mkW (firstn 1 ex_hA) [] ix_init) ex_ops in
+   w_queue w = [] /\ ix_stored (w_ix w) = 1 /\ shead (w_ix w) 0 = 108 /\
+   index_of_world 8 w 1 0 = [false; false; true; true; false; true; true; true]).
+Proof. split; [exact ex_ops_valid|vm_compute; repeat split; reflexivity]. Qed.
 
 (* non-vacuity: a 17-block chain (section size 8, two sections indexed) with Keccak-256 as H,
    header blooms = CreateBloom(receipts) by construction (ex_blk), logs in blocks 3, 12, 15 and 16; a query by address and
